@@ -25,6 +25,9 @@ def make_spec(rng, D=None, geom=None, target=None, mode=None, cons=None, opt_loc
             "x0_unit": [round(rng.uniform(-0.9, 0.9), 3) for _ in range(D)],
             "w": [rng.choice([1.0, 1.0, 4.0, 0.25]) for _ in range(D)],
             "options": dict(options or {})}
+    if cons:
+        # some constraint functions report violations as tiny positive numbers (any value > 0 is a violation)
+        spec["cons_scale"] = rng.choice([1.0, 1.0, 1.0, 1e-9, 1e-12])
     if mode == "he":
         # reported SDs that differ from call to call at the same point (e.g. the standard error of a Monte-Carlo batch)
         spec["sd_jitter"] = rng.random() < 0.6
@@ -185,7 +188,7 @@ def build(spec, fault=None):
                     out[j] = abs(float(z[0] - x0z[0])) - r
                 else:                  # non-convex ring: infeasible inside a small hole away from the start
                     out[j] = 0.3 ** 2 - float(np.sum((z - x0z - 0.8) ** 2))
-            return out
+            return out * spec.get("cons_scale", 1.0)
 
     opts = {"display": "off", "random_seed": spec["seed"]}
     if mode in ("decl", "he"):
